@@ -503,10 +503,10 @@ def judge(rec, cls, params, fnkey, ctx, st, val, parts, alts, nontrivial,
 				"outputs over %d annotations" % (ctx.n_out, n_ann),
 				"error": repr(val)[:200]})
 			return
-		if params.get("startkind") == "tensor0d" and params.get(
+		if params.get("startkind", "int") != "int" and params.get(
 			"start") is not None:
-			# a 0-d tensor is not a documented kind of position
-			rec.refusal(cls, params, "tensor position refused: " + repr(
+			# only Python ints are documented positions
+			rec.refusal(cls, params, "non-int position refused: " + repr(
 				val)[:100])
 			return
 		viol(pre + "-raised", {"what": "raised on a valid configuration",
